@@ -32,3 +32,7 @@ COSIM_MAIN_BEGIN
       bool t1 = RSD_StartDecoding(&r1, &d1), t2 = slice_RSD_StartDecoding(&r2, &d2); COSIM_EQ(t1, t2, "start.ret"); COSIM_EQ(d1.pos_, d2.pos_, "start.pos"); if (t1 && t2) { COSIM_EQ(a1.ans_.state, a2.ans_.state, "start.state"); COSIM_EQ(a1.ans_.buf_offset, a2.ans_.buf_offset, "start.off"); } } }
   COSIM_END();
 COSIM_MAIN_END
+/* ghost symbol decoder of the two symbol loops: only referenced by slices that this driver does not exercise */
+void GSD_ctor(struct GSD *d) { memset(d, 0, sizeof *d); } bool GSD_Create(struct GSD *d, struct DecoderBuffer *b) { return false; } uint32_t GSD_num_symbols(const struct GSD *d) { return 0; }
+bool GSD_StartDecoding(struct GSD *d, struct DecoderBuffer *b) { return false; } uint32_t GSD_DecodeSymbol(struct GSD *d) { return 0; } void GSD_EndDecoding(struct GSD *d) {}
+void GBITS_Start(struct DecoderBuffer *b) {} bool GBITS_Decode(struct DecoderBuffer *b, uint32_t nbits, uint32_t *v) { return false; } void GBITS_End(struct DecoderBuffer *b) {}
